@@ -79,6 +79,7 @@ def main():
         # keep what earlier versions of the checks did with this change (misses are why checks were extended)
         old = json.load(open(old_path))
         hist = old.get('history', [])
+        hist = [hist] if isinstance(hist, str) else hist
         if old.get('checks'):
             hist.append({'when': old.get('when'), 'repo_head': old.get('repo_head'),
                          'checks': {c: {'caught': v.get('caught'), 'keys': v.get('keys', [])[:2]}
